@@ -19,15 +19,74 @@ func vpSeq(name string, n, k int) []byte {
 // vpMatrix is a matrix over vpAlpha[:k] and Gap with symbolic integer-valued
 // entries in [-r, r]; gap scores in [gapLo, gapHi]; gap-open in [openLo, openHi].
 func vpMatrix(k, r, gapLo, gapHi, openLo, openHi int) SubstitutionMatrix {
+	return vpMatrixP("", k, r, gapLo, gapHi, openLo, openHi)
+}
+
+func vpMatrixP(pre string, k, r, gapLo, gapHi, openLo, openHi int) SubstitutionMatrix {
 	m := SubstitutionMatrix{}
 	for i, x := range vpAlpha[:k] {
 		for j, y := range vpAlpha[:k] {
-			m[[2]byte{x, y}] = vpFloatInt("S"+vpDigit(i)+vpDigit(j), -r, r)
+			m[[2]byte{x, y}] = vpFloatInt(pre+"S"+vpDigit(i)+vpDigit(j), -r, r)
 		}
-		m[[2]byte{x, Gap}] = vpFloatInt("Sdel"+vpDigit(i), gapLo, gapHi)
-		m[[2]byte{Gap, x}] = vpFloatInt("Sins"+vpDigit(i), gapLo, gapHi)
+		m[[2]byte{x, Gap}] = vpFloatInt(pre+"Sdel"+vpDigit(i), gapLo, gapHi)
+		m[[2]byte{Gap, x}] = vpFloatInt(pre+"Sins"+vpDigit(i), gapLo, gapHi)
 	}
-	m[[2]byte{Gap, Gap}] = vpFloatInt("open", openLo, openHi)
+	m[[2]byte{Gap, Gap}] = vpFloatInt(pre+"open", openLo, openHi)
+	return m
+}
+
+// vpWarm (case parameter warm=1, symbolic matrices only): the very map object
+// that is about to be used first holds other scores and is used for one
+// alignment, then its entries are overwritten in place with the final scores.
+// An implementation that keeps anything derived from a matrix between calls
+// answers the second call from stale data.
+func vpWarm(m SubstitutionMatrix, local bool) {
+	if vpCaseOr("warm", 0) != 1 || vpCase("matrix") != 0 {
+		return
+	}
+	final := SubstitutionMatrix{}
+	for key, v := range m {
+		final[key] = v
+	}
+	k := vpCase("alpha")
+	gapHi := 8
+	if local {
+		gapHi = 0
+	}
+	for key, v := range vpMatrixP("W", k, 8, -8, gapHi, vpCase("openLo"), vpCase("openHi")) {
+		m[key] = v
+	}
+	x := []byte{vpAlpha[0]}
+	if local {
+		Local(x, x, m)
+	} else {
+		Global(x, x, m)
+	}
+	for key, v := range final {
+		m[key] = v
+	}
+}
+
+// vpFracMatrix: scores that are not small integers. Gap scores are negative,
+// gap-open is -0.5 (openTenths case parameter: tenths).
+func vpFracMatrix(k int, big, local bool) SubstitutionMatrix {
+	m := SubstitutionMatrix{}
+	unit, off := 0.1, 0.0
+	if big {
+		unit, off = 0.5, 20000001
+	}
+	for i, x := range vpAlpha[:k] {
+		for j, y := range vpAlpha[:k] {
+			if i == j {
+				m[[2]byte{x, y}] = off + unit*float64(11+i)
+			} else {
+				m[[2]byte{x, y}] = -(off + unit*float64(3+2*i+j))
+			}
+		}
+		m[[2]byte{x, Gap}] = -(off/2 + unit*float64(7+i))
+		m[[2]byte{Gap, x}] = -(off/2 + unit*float64(6+2*i))
+	}
+	m[[2]byte{Gap, Gap}] = -unit * float64(vpCaseOr("openTenths", 5))
 	return m
 }
 
@@ -148,6 +207,12 @@ func vpInputs(local bool) (a, b []byte, m SubstitutionMatrix) {
 		return vpSeq("a", n, k), vpSeq("b", mm, k), vpMatrix(k, 8, -8, 8, vpCase("openLo"), vpCase("openHi"))
 	case which == 7:
 		return vpAnySeq("a", n), vpAnySeq("b", mm), Levenshtein
+	case which == 8 || which == 9:
+		// concrete non-integer scores (8: decimal fractions, 9: integers
+		// beyond 2^24 and halves), symbolic sequences: the DP runs on IEEE
+		// binary64 terms (cap "fp")
+		k := vpCase("alpha")
+		return vpSeq("a", n, k), vpSeq("b", mm, k), vpFracMatrix(k, which == 9, local)
 	}
 	return vpProteinSeq("a", n), vpProteinSeq("b", mm), vpShipped(which)
 }
